@@ -32,6 +32,7 @@ type Prog struct {
 	allTypes map[string]*types.Package // every package reachable through imports, by path
 	RepoDir  string
 	Tags     string
+	Overlay  map[string][]byte // source overlay this program was loaded with (selftest mutants)
 
 	idx *Index // lazily built
 	fns map[*types.Func]*FuncSrc
@@ -49,6 +50,8 @@ type LoadOpts struct {
 	Patterns []string
 	Tags     string
 	Overlay  map[string][]byte
+	// AllowUnusedOverlay: overlay entries for files that are not compiled in this build variant are ignored.
+	AllowUnusedOverlay bool
 }
 
 // loadViaExportData is the plain go/packages loader (module packages type-checked by
